@@ -106,6 +106,8 @@ func (d *renameDetector) detectExactRenames() {
 					}
 				}
 				deletes[hash] = newDeletes
+			} else {
+				addedLeft = append(addedLeft, c)
 			}
 		default:
 			addedLeft = append(addedLeft, c)
